@@ -1,4 +1,5 @@
 import Gmx.Model.ConfigAccess
+import Gmx.Gen.Layout
 /-!
 # C40 — the SDK market model agrees with the on-chain program
 
@@ -11,7 +12,7 @@ the trait accessors return, so equal accessor tables give equal action results
 method by method below.
 -/
 namespace Gmx.C40
-open Gmx.Gen.MarketConfig Gmx.Gen.Pools Gmx.Gen.Wiring Gmx.ConfigAccess
+open Gmx.Gen.MarketConfig Gmx.Gen.Pools Gmx.Gen.Wiring Gmx.ConfigAccess Gmx.Gen.Layout
 
 /-- SDK-only features that are outside the program's `Market` trait impl:
 * the swap-pricing switch (`swap_pricing_*` variants): Swap/Deposit/Withdrawal must behave as the
@@ -140,7 +141,38 @@ theorem cancel_default_fails_iff (long short : Nat) :
 theorem cancel_witness :
     cancelProg (2 ^ 127) (2 ^ 127) = some (0, 0) ∧ cancelDefault (2 ^ 127) (2 ^ 127) = none := by decide
 
+/-! ## account layouts declared for the SDK (IDL) -/
+
+/-- fields of a laid-out type are in order, do not overlap and fit the type's size -/
+def wellFormed (t : TypeL) : Bool :=
+  let rec go : Nat → List FieldL → Bool
+    | pos, [] => pos ≤ t.size16
+    | pos, f :: rest => pos ≤ f.off16 && go (f.off16 + f.size) rest
+  go 0 t.fields
+
+/-- every zero-copy type of the IDL has the SAME size and field offsets whether `u128` is 16-aligned
+(x86-64 host, where the correspondence runs) or 8-aligned (SBF, on chain): explicit padding makes
+the layout target independent, so natively observed layouts are the on-chain ones -/
+theorem layout_target_independent :
+    (layouts.all fun t => t.size16 == t.size8 && t.fields.all fun f => f.off16 == f.off8) = true := by
+  decide +kernel
+
+theorem layout_well_formed : (layouts.all wellFormed) = true := by decide +kernel
+
+/-- the IDL places the factor fields of `MarketConfig` in the program's declaration order, one
+16-byte slot each, right after the flag word -/
+theorem config_offsets_spec :
+    ∀ f : Field, configFieldOffset f = configFlagOffset + 16 * (1 + Field.all.idxOf f) := by
+  intro f; cases f <;> decide +kernel
+
+/-- the reserved tail keeps `MarketConfig` at `16 · (1 + fields + reserved)` bytes -/
+theorem config_size_spec :
+    (layouts.find? (fun t => t.name == "MarketConfig")).map (·.size16)
+      = some (16 * (1 + Field.all.length + reservedFactors)) := by
+  decide +kernel
+
 /-! ## non-vacuity -/
+example : layouts.length ≥ 50 ∧ (layouts.filter (·.isAccount)).length ≥ 15 := by decide +kernel
 example : progWiring.length ≥ 60 ∧ (sdkNormalise sdkWiring).length ≥ 60 := by decide +kernel
 example : cancelDefault 1000 200 = some (800, 0) ∧ cancelProg 1000 200 = some (800, 0) := by decide
 example : (sentinelCfg 1000).readParamSdk false .order_fee_params .none_ none .fee_receiver_factor
